@@ -73,7 +73,7 @@ def plan(tier, seed):
             if gl:
                 progs.append((G.Program("c09_s%d_%s_ix%d" % (seed, tier[0], pi), gl), flavors))
     # ---- view / eval family: one operation per program (array kinds are expensive to compile)
-    vnames = [n for n, o in G.OPS.items() if o.family == "view"]
+    vnames = [n for n, o in G.OPS.items() if o.family == "view" and not o.composite]
     vquick = ["transpose", "reshape", "broadcast_to", "add", "multiply", "sum", "slice", "tile", "concatenate", "matmul"]
     vrounds = 1 if quick else 2
     if os.environ.get("C09_FAMILY") == "index":       # debugging aid
@@ -108,6 +108,37 @@ def plan(tier, seed):
             g = G.make_group(gid, o, grng, ordered, 1, (0 if quick else 64) // o.weight, dims=dims, small=quick)
             gid += 1
             progs.append((G.Program("c09_s%d_%s_v%d_%s" % (seed, tier[0], rnd, n), [g]), flavors))
+    # ---- composite views (depth 2 and 3; G.COMPOSITES): one operation per program.  Every tier and seed has every composite
+    # over the array kinds whose result storage is inferred as fixed / bounded, with run-time inner arguments
+    # (G.composite_target_cfgs); own random stream, so the programs above do not depend on this block
+    crng = gen_rng(seed, "plan/composite")
+    for rnd in range(vrounds):
+        order = list(G.COMPOSITES)
+        crng.shuffle(order)
+        for k, n in enumerate(order):
+            o = G.OPS[n]
+            rich = [d for d in o.dims if d[0] >= 2]
+            dims = crng.choice(rich) if quick else o.dims[(rnd + crng.randrange(len(o.dims))) % len(o.dims)]
+            if quick:
+                flavors = ["asan"] + ([["clang"], ["nostl"]][k % 2] if k < 2 else [])
+            else:
+                flavors = ["asan"] + ([["clang"], ["nostl"]][k % 2] if rnd == 0 else [])
+            if os.environ.get("C09_ONLY_FLAVORS"):
+                flavors = [f for f in flavors if f in os.environ["C09_ONLY_FLAVORS"].split(",")] or [os.environ["C09_ONLY_FLAVORS"].split(",")[0]]
+            flavors = [fl for fl in flavors if repr(dims) in sup.get(fl, {}).get(o.name, {})]
+            if "asan" not in flavors:
+                continue
+            cfgs = None
+            for fl in flavors:
+                s_ = set(sup.get(fl, {}).get(o.name, {}).get(repr(dims), []))
+                cfgs = s_ if cfgs is None else (cfgs & s_)
+            ordered = [c for c in G.candidates(o) if c in cfgs]
+            if not ordered:
+                continue
+            grng = gen_rng(seed, "cgroup/%s/%d" % (o.name, rnd))
+            g = G.make_group(gid, o, grng, ordered, 1, 0 if quick else 56, dims=dims, small=quick)
+            gid += 1
+            progs.append((G.Program("c09_s%d_%s_c%d_%s" % (seed, tier[0], rnd, n), [g]), flavors))
     if os.environ.get("C09_CORE_ONLY"):      # debugging aid
         progs = []
     if not os.environ.get("C09_NO_CORE"):
@@ -221,9 +252,20 @@ def prewrite_sources(tl):
         os.replace(tmp, path)
 
 
-def targets(tier, seed):
+def targets(tier, seed, build=False):
+    """targets of the plan.  build=True (setup / prebuild): the programs are built right here the way run_plan builds them -
+    value-dependent constant configurations that do not compile are dropped, the reduced programs are rebuilt and the
+    decision is remembered (build_plan) - so that the check finds every binary it needs in the cache."""
+    pl = plan(tier, seed)
+    if build:
+        try:
+            tl, res, dropped, ncomp = build_plan(pl)
+            return [t for _, _, t in tl]
+        except Inconclusive as e:
+            sys.stderr.write("[c09] prebuild: %s\n" % str(e)[:400])
+            pl = plan(tier, seed)
     out = []
-    for p, flavors in plan(tier, seed):
+    for p, flavors in pl:
         for fl in flavors:
             out.append(p.target(fl))
     prewrite_sources(out)
@@ -231,7 +273,159 @@ def targets(tier, seed):
 
 
 def quick_targets_seed0():
-    return targets("quick", 0)
+    """targets of the quick tier for the seed the checks will run with (VERIF_SEED, default 0); name kept for compatibility"""
+    return targets("quick", int(os.environ.get("VERIF_SEED", "0") or 0), build=True)
+
+
+# ----------------------------------------------------------------------------------------------------
+# building a plan.  A constant configuration can fail to compile for particular baked values (a failing call is a compile
+# error there).  Such configurations are found by compiling (syntax only), dropped (bounded) and the program is rebuilt.
+# The decision is remembered in .build/c09_dropped/<program>.json together with the content hashes of every header the
+# reduced program includes: while the program text and all of those files are unchanged the compiler would decide exactly
+# the same, so the next process (setup -> check) drops the same configurations up front and finds the binaries in the cache.
+# ----------------------------------------------------------------------------------------------------
+
+DROP_DIR = os.path.join(B.BUILD, "c09_dropped")
+
+
+def _prog_sha(p, flavors):
+    import hashlib
+    return hashlib.sha1((p.text() + "\0" + ",".join(flavors)).encode()).hexdigest()
+
+
+def _dep_roots():
+    return (("R", os.path.realpath(B.REPO)), ("V", os.path.realpath(B.VERIF)))
+
+
+def _dep_key(path):
+    rp = os.path.realpath(path)
+    for tag, root in _dep_roots():
+        if rp.startswith(root + os.sep):
+            return tag + ":" + os.path.relpath(rp, root)
+    return None
+
+
+def _dep_path(key):
+    tag, rel = key.split(":", 1)
+    return os.path.join(dict(_dep_roots())[tag], rel)
+
+
+def _memo_load(p, flavors):
+    """[(gid, op, cfg)] to drop from the unreduced program p, or None"""
+    import json
+    try:
+        with open(os.path.join(DROP_DIR, p.name + ".json")) as f:
+            m = json.load(f)
+        if m.get("orig") != _prog_sha(p, flavors) or not m.get("deps") or not m.get("dropped"):
+            return None
+        for key, h in m["deps"].items():
+            if B.file_hash(_dep_path(key)) != h:
+                return None
+        return [tuple(x) for x in m["dropped"]]
+    except (OSError, ValueError, KeyError, TypeError):
+        return None
+
+
+def _memo_save(p, orig_sha, flavors, dropped):
+    import json
+    deps = {}
+    for fl in flavors:
+        t = p.target(fl)
+        try:
+            with open(os.path.join(B.BUILD, "deps", t.ident() + ".json")) as f:
+                lst = json.load(f)
+        except (OSError, ValueError):
+            return
+        for d in lst:
+            k = _dep_key(d)
+            if k is not None:
+                deps[k] = B.file_hash(d)
+    if not deps:
+        return
+    os.makedirs(DROP_DIR, exist_ok=True)
+    path = os.path.join(DROP_DIR, p.name + ".json")
+    tmp = path + ".tmp%d" % os.getpid()
+    with open(tmp, "w") as f:
+        json.dump(dict(orig=orig_sha, flavors=list(flavors), dropped=[list(x) for x in dropped], deps=deps), f)
+    os.replace(tmp, path)
+
+
+def _drop(p, items):
+    for g in p.groups:
+        bc = {c for (gid, opn, c) in items if gid == g.gid}
+        if bc:
+            g.cfgs = [c for c in g.cfgs if c not in bc]
+            g.insts = [i for i in g.insts if i.cfg not in bc]
+
+
+def build_plan(pl, want_flavors=None):
+    """build every (program, flavour) of the plan; returns (tl, built targets, {program: [dropped op:cfg]}, #compiled).
+    Raises Inconclusive when a program does not compile for another reason than a few value-dependent constant configurations."""
+    flv_of = {}
+    orig = {}
+    dropped_items = {}
+    for p, flavors in pl:
+        fls = [fl for fl in flavors if not want_flavors or fl in want_flavors]
+        flv_of[p.name] = fls
+        if not fls:
+            continue
+        orig[p.name] = _prog_sha(p, fls)
+        m = _memo_load(p, fls)
+        if m:
+            _drop(p, m)
+            dropped_items[p.name] = list(m)
+    tl = [(p, fl, p.target(fl)) for p, flavors in pl for fl in flv_of[p.name]]
+    prewrite_sources([t for _, _, t in tl])
+    res = B.build([t for _, _, t in tl])
+    ncomp = sum(1 for t in res if t.compiled)
+    bad = [k for k, t in enumerate(res) if t.error]
+    if bad:
+        from . import c09_probe as P
+        import tempfile
+        os.makedirs(os.path.join(B.BUILD, "c09_probe"), exist_ok=True)
+        wd = tempfile.mkdtemp(prefix="f%d_" % os.getpid(), dir=os.path.join(B.BUILD, "c09_probe"))
+        progs_bad = {}
+        for k in bad:
+            progs_bad.setdefault(tl[k][0].name, tl[k][0])
+        try:
+            for name, p in progs_bad.items():
+                total = sum(len(g.insts) for g in p.groups)
+                removed = []
+                for fl in flv_of[name]:
+                    for _ in range(6):
+                        ok, badinst, err = P.try_compile(p, fl, wd)
+                        if ok:
+                            break
+                        items = []
+                        for g in p.groups:
+                            byname = {i.name: i.cfg for i in g.insts}
+                            items += [(g.gid, g.op.name, c) for c in {byname[b] for b in badinst if b in byname}]
+                        if not items:
+                            break
+                        removed += items
+                        _drop(p, items)
+                if not removed or len(removed) > max(2, total // 8):
+                    t = res[[k for k in bad if tl[k][0] is p][0]]
+                    raise Inconclusive("generated program %s[%s] no longer compiles (allow-list stale or library changed; %d configurations implicated):\n%s" % (
+                        t.name, t.flavor, len(removed), t.error[-1500:]))
+                dropped_items[name] = dropped_items.get(name, []) + removed
+        finally:
+            try:
+                os.rmdir(wd)
+            except OSError:
+                pass
+        tl = [(p, fl, p.target(fl)) for (p, fl, _) in tl]
+        prewrite_sources([t for _, _, t in tl])
+        res = B.build([t for _, _, t in tl])
+        ncomp += sum(1 for t in res if t.compiled)
+        bad2 = [t for t in res if t.error]
+        if bad2:
+            raise Inconclusive("%d generated programs do not compile even after dropping value-dependent constant configurations:\n%s[%s]: %s" % (
+                len(bad2), bad2[0].name, bad2[0].flavor, bad2[0].error[-1500:]))
+        for name, p in progs_bad.items():
+            _memo_save(p, orig[name], flv_of[name], dropped_items[name])
+    dropped = {name: sorted({"%s:%s" % (opn, c) for (gid, opn, c) in items}) for name, items in dropped_items.items()}
+    return tl, res, dropped, ncomp
 
 
 # ----------------------------------------------------------------------------------------------------
@@ -277,6 +471,13 @@ def value_sets(g, rng, nsamples, enum_limit=400):
                         add(v, "enum")
         else:
             space = None
+    if o.composite and first.typ == "arr" and sg is not None:
+        # composite views: array kinds without run-time freedom (constant shape, raw / nested / fixed arrays) only admit the
+        # template shape, so the arguments of the inner and outer view are varied on THAT shape under every seed
+        for _ in range(nsamples):
+            v = o.gen(rng, g.dims, list(sg["S"]))
+            if v[first.name]["shape"] == list(sg["S"]):
+                add(v, "pinned")
     for _ in range(nsamples):
         add(o.gen(rng, g.dims), "sample")
     # other signatures of the same operation (only configurations whose types admit them are run)
@@ -293,67 +494,12 @@ class Rec:
 def run_plan(ctx, tier, seed, want_flavors=None):
     """build + run; returns (records, info)"""
     pl = plan(tier, seed)
-    tl = []
-    for p, flavors in pl:
-        for fl in flavors:
-            if want_flavors and fl not in want_flavors:
-                continue
-            tl.append((p, fl, p.target(fl)))
     t0 = time.time()
-    prewrite_sources([t for _, _, t in tl])
-    res = B.build([t for _, _, t in tl])
-    dropped = {}
-    bad = [k for k, t in enumerate(res) if t.error]
-    if bad:
-        # A constant configuration can fail to compile for particular baked values (a failing call is a compile error there).
-        # Drop the offending configurations once (bounded) and rebuild; anything else is a stale allow-list -> inconclusive.
-        from . import c09_probe as P
-        import tempfile
-        os.makedirs(os.path.join(B.BUILD, "c09_probe"), exist_ok=True)
-        wd = tempfile.mkdtemp(prefix="f%d_" % os.getpid(), dir=os.path.join(B.BUILD, "c09_probe"))
-        progs_bad = {}
-        for k in bad:
-            progs_bad.setdefault(tl[k][0].name, tl[k][0])
-        for name, p in progs_bad.items():
-            flv = [fl for (q, fl, _) in tl if q is p]
-            total = sum(len(g.insts) for g in p.groups)
-            removed = []
-            for fl in flv:
-                for _ in range(6):
-                    ok, badinst, err = P.try_compile(p, fl, wd)
-                    if ok:
-                        break
-                    hit = False
-                    for g in p.groups:
-                        byname = {i.name: i.cfg for i in g.insts}
-                        bc = {byname[b] for b in badinst if b in byname}
-                        if bc:
-                            hit = True
-                            removed += ["%s:%s" % (g.op.name, c) for c in bc]
-                            g.cfgs = [c for c in g.cfgs if c not in bc]
-                            g.insts = [i for i in g.insts if i.cfg not in bc]
-                    if not hit:
-                        break
-            if not removed or len(removed) > max(2, total // 8):
-                t = res[[k for k in bad if tl[k][0] is p][0]]
-                raise Inconclusive("generated program %s[%s] no longer compiles (allow-list stale or library changed; %d configurations implicated):\n%s" % (
-                    t.name, t.flavor, len(removed), t.error[-1500:]))
-            dropped[name] = sorted(set(removed))
-        try:
-            os.rmdir(wd)
-        except OSError:
-            pass
-        tl = [(p, fl, p.target(fl)) for (p, fl, _) in tl]
-        prewrite_sources([t for _, _, t in tl])
-        res = B.build([t for _, _, t in tl])
-        bad2 = [t for t in res if t.error]
-        if bad2:
-            raise Inconclusive("%d generated programs do not compile even after dropping value-dependent constant configurations:\n%s[%s]: %s" % (
-                len(bad2), bad2[0].name, bad2[0].flavor, bad2[0].error[-1500:]))
+    tl, res, dropped, ncomp = build_plan(pl, want_flavors)
     build_s = time.time() - t0
     quick = tier == "quick"
     recs = []
-    info = dict(programs=len(pl), binaries=len(tl), build_s=round(build_s, 1), compiled=sum(1 for t in res if t.compiled), spaces={}, dropped=dropped)
+    info = dict(programs=len(pl), binaries=len(tl), build_s=round(build_s, 1), compiled=ncomp, spaces={}, dropped=dropped)
     cases_by_prog = {}
     failing_ids = set()
     for p, flavors in pl:
@@ -522,6 +668,10 @@ def parse_hk(t, tag, hk):
     d = {}
     for site in ("clamp", "svec_capacity"):
         d[site] = (t.i(), t.i(), t.i(), t.i())
+    if t.peek() == "P":
+        # events of the clamp_placeholder site (placeholder shape of a default-constructed ndarray): counted, never a violation
+        t.s()
+        d["clamp_placeholder"] = (0, 0, 0, t.i())
     hk[tag] = d
 
 
@@ -737,6 +887,9 @@ def family_of(op, cfg, vals, key):
                 vs = v if isinstance(v, list) else [v]
                 if any(x is not None and x < 0 for x in vs):
                     return "signed_clipped_axes"
+    if "concatenate" in o.parts and any("ls_" in k for k in akinds):
+        # composite over view::concatenate of clipped-shape operands: the known assert of the inner view (same cause, same key)
+        return "clipped_result_bounds:concatenate"
     if op in CLIPPED_BOUND_OPS:
         if any(a.typ in ("ia", "is") and ac.kind in CLIPPED_IDX_KINDS for a, ac in pairs) or any("ls_" in k for k in akinds):
             return "clipped_result_bounds:%s" % op
@@ -867,8 +1020,9 @@ def judge_c11(ctx, recs, info):
     ctx = FamilyCtx(ctx, "static_knowledge")
     matrix = {}
     types_seen = {}
-    hook_events = {"clamp": 0, "svec_capacity": 0}
+    hook_events = {"clamp": 0, "svec_capacity": 0, "clamp_placeholder": 0}
     ntraits = 0
+    composites = {}
     for r in recs:
         o = r.g.op
         ck = G.cfg_kinds(r.inst.cfg)
@@ -900,6 +1054,26 @@ def judge_c11(ctx, recs, info):
                     ntraits += check_array_traits(ctx, o, kb, r, where, tr, ex, det)
                     k = (tr.get("fs") is not None, tr.get("fd") is not None, tr.get("fz") is not None, tr.get("bd") is not None, tr.get("bz") is not None)
                     types_seen.setdefault("%s:%s" % (o.name, where), set()).add((ck, k))
+                # "result buffers chosen from this information always have room for the whole result": the evaluated result
+                # (storage inferred by the library from the static knowledge of the view type) must have the shape of the lazy
+                # view it was evaluated from.  A refused resize leaves a default-shaped / empty array behind, silently.
+                vt, et = p["vt"], p["et"]
+                if "rs" in vt and "rs" in et and not et.get("nothing") and not vt.get("nothing"):
+                    ntraits += 1
+                    if list(vt["rs"]) != list(et["rs"]):
+                        ctx.violation("%s:%s:eval:result_not_taken" % (o.name, cc),
+                                      "%s(%s) configuration %s [%s]: the lazy view has shape %s (%d elements), its evaluation returned shape %s (%d elements); inferred result type: fixed_size %s bounded_size %s" % (
+                                          o.name, vals_brief(r), r.inst.cfg, r.flavor, vt["rs"], vt["rz"], et["rs"], et["rz"], et.get("fz"), et.get("bz")), det)
+                if o.composite:
+                    # what was observed in the region "view of an enlarging view over an operand of bounded storage"
+                    cs = composites.setdefault(o.name, dict(records=0, view_larger_than_first_operand_capacity=0,
+                                                            eval_storage=dict(fixed=0, bounded=0, dynamic=0, none=0)))
+                    cs["records"] += 1
+                    S0 = [r.g.sig[a.name]["S"] for a in o.args if a.typ == "arr"][0]
+                    if vt.get("rz", 0) > int(np.prod(S0)):
+                        cs["view_larger_than_first_operand_capacity"] += 1
+                    st = "none" if "rs" not in et else "fixed" if et.get("fz") is not None else "bounded" if et.get("bz") is not None else "dynamic"
+                    cs["eval_storage"][st] += 1
                 m = matrix.setdefault(o.name, {})
                 m[ck] = m.get(ck, 0) + 1
                 if p["vt"].get("rz", 0) and p["vt"]["rz"] > 1:
@@ -925,7 +1099,7 @@ def judge_c11(ctx, recs, info):
                     ctx.sample(dict(op=o.name, config=r.inst.cfg, values=vals_brief(r), static=tr, runtime=str(res)))
         except (ValueError, IndexError) as e:
             ctx.violation("%s:%s:malformed" % (o.name, cc), "unparsable record: %s (%s)" % (e, " ".join(r.toks[:40])), det)
-    return dict(families=ctx.families, matrix=matrix, traits_checked=ntraits, hook_events=hook_events,
+    return dict(families=ctx.families, matrix=matrix, traits_checked=ntraits, hook_events=hook_events, composites=composites,
                 result_type_classes={k: len(v) for k, v in sorted(types_seen.items())})
 
 
